@@ -36,14 +36,14 @@ StrVal(tok) ==
 Opaque(n) == [t |-> "opaque", n |-> n]
 
 (* Paths of model resource MR1 (spec/data/MR1.json) evaluated at the root. *)
-PathKeys == {"Patient.active", "active", "Patient.gender", "gender", "Patient.name", "name",
-             "Patient.telecom.rank", "telecom.rank", "Patient.name.given", "name.given"}
+PathKeys == {"Patient.active", "active", "Patient.`active`", "`Patient`.active", "`Patient`.`name`", "`active`", "Patient.gender", "gender", "Patient.name", "name",
+             "Patient.telecom.rank", "telecom.rank", "Patient.name.given", "name.given", "Patient.name.`given`"}
 PathDen(key) ==
-  CASE key \in {"Patient.active", "active"} -> VF(<<B(TRUE)>>, TRUE)
+  CASE key \in {"Patient.active", "active", "Patient.`active`", "`Patient`.active", "`active`"} -> VF(<<B(TRUE)>>, TRUE)
     [] key \in {"Patient.gender", "gender"} -> VF(<<S(<<109, 97, 108, 101>>)>>, TRUE)
-    [] key \in {"Patient.name", "name"}     -> VF(<<Opaque(1), Opaque(2), Opaque(3)>>, TRUE)
+    [] key \in {"Patient.name", "name", "`Patient`.`name`"} -> VF(<<Opaque(1), Opaque(2), Opaque(3)>>, TRUE)
     [] key \in {"Patient.telecom.rank", "telecom.rank"} -> VF(<<I(1), I(2)>>, TRUE)
-    [] key \in {"Patient.name.given", "name.given"} ->
+    [] key \in {"Patient.name.given", "name.given", "Patient.name.`given`"} ->
          VF(<<S(<<74, 111, 104, 110>>), S(<<74, 97, 99, 111, 98>>), S(<<74, 111, 104, 110, 110, 121>>),
               S(<<74, 111, 104, 110>>), S(<<74, 97, 99, 111, 98>>)>>, TRUE)
 
@@ -54,7 +54,7 @@ PathDen(key) ==
 (* of the enclosing expression).  In argument position the property's      *)
 (* reading is left open (Permitted = filter semantics or InvalidField), so *)
 (* the evaluator does not give a value there.                              *)
-ResourceTypeNames == {"Patient", "Observation"}
+ResourceTypeNames == {"Patient", "Observation", "`Patient`"}
 RECURSIVE MentionsRootType(_), AnyMentions(_, _)
 AnyMentions(args, j) == j <= Len(args) /\ (MentionsRootType(args[j]) \/ AnyMentions(args, j + 1))
 MentionsRootType(t) ==
@@ -353,6 +353,7 @@ PActive == Inv(Id("Patient"), Id("active"))
 PGender == Inv(Id("Patient"), Id("gender"))
 PCount  == Inv(Inv(Id("Patient"), Id("name")), Fn("count", <<>>))
 PRank   == Inv(Inv(Inv(Id("Patient"), Id("telecom")), Id("rank")), Fn("first", <<>>))
+PRanks  == Inv(Inv(Id("Patient"), Id("telecom")), Id("rank"))
 PNoName == Inv(Inv(Id("Patient"), Id("name")), Fn("empty", <<>>))
 RootPool == <<PActive, PNoName, PCount, PRank, PGender, Lit("true"), Lit("3"), Lit("'male'")>>
 NRoot == 5    \* the first NRoot entries of RootPool are root-type paths
@@ -400,6 +401,13 @@ MiscTrees == <<
   Inv(Id("name"), Fn("count", <<>>)), Bin("+", Inv(Id("name"), Fn("count", <<>>)), Lit("1")),
   Ty("is", Id("Patient"), <<"Patient">>), Ty("is", PActive, <<"Boolean">>), Ty("is", PActive, <<"FHIR", "boolean">>),
   Bin("and", Ty("is", Id("Patient"), <<"Patient">>), PActive),
+  Inv(Id("Patient"), Id("`active`")), Inv(Id("`Patient`"), Id("active")), Id("`active`"),
+  Bin("and", Inv(Id("`Patient`"), Id("active")), Inv(Id("Patient"), Id("`active`"))),
+  Inv(Inv(Id("`Patient`"), Id("`name`")), Fn("count", <<>>)), Inv(Inv(PName, Id("`given`")), Fn("count", <<>>)),
+  Pol("-", Idx(PRanks, Lit("1"))), Pol("-", Inv(PRanks, Fn("first", <<>>))), Pol("-", Inv(PRanks, Fn("count", <<>>))),
+  Pol("+", Idx(PRanks, Lit("0"))), Bin("*", Pol("-", Idx(PRanks, Lit("1"))), Lit("2")), Idx(Inv(PRanks, Fn("tail", <<>>)), Lit("0")),
+  Ty("is", Idx(Inv(PName, Id("given")), Lit("4")), <<"FHIR", "string">>), Inv(Idx(PRanks, Lit("1")), Fn("toString", <<>>)),
+  Bin("+", Idx(PRanks, Lit("0")), Idx(PRanks, Lit("1"))), Bin("<", Idx(PRanks, Lit("0")), Idx(PRanks, Lit("1"))),
   Pol("-", Pol("-", Lit("7"))), Pol("-", Pol("+", Pol("-", Lit("7")))), Bin("-", Lit("7"), Pol("-", Lit("2"))),
   Bin("-", Pol("-", Lit("7")), Pol("-", Pol("-", Lit("2")))),
   Bin("/", Lit("6"), Lit("3")), Bin("/", Bin("/", Lit("12"), Lit("2")), Lit("3")), Bin("/", Lit("12"), Bin("/", Lit("6"), Lit("3"))),
